@@ -604,6 +604,12 @@ def execute(plan, prop, out, tr):
         L_e = hloss()
         ret_f = float(ret)
         srec = solver.rec
+        # nothing may have moved the parameters before the first linear system of the call is handed to the solver
+        # (residual evaluation, corrector, weighting and Jacobian assembly only read them)
+        if srec and not all(_teq(a_, b_) for a_, b_ in zip(srec[0]["snap"], p_s)):
+            raise Violation(prop + ".pre-solve", "%s call %d: the parameters seen at the first solve of the call differ from "
+                            "those the call was given (something between residual evaluation and the linear solve wrote "
+                            "into parameter storage)" % (c["opt"], ci), ci, "pre-solve")
         trec = strat.rec if strat is not None else []
         n_solves = len(srec)
         out.sim_time += n_solves; out.ops += 1
